@@ -1,7 +1,6 @@
 (* Corr/C13.v — monitor for C13 on recorded histories. *)
 From AS Require Import Base.Str Http.PathSplit Url.Escape Oidc.Types Oidc.Prog Oidc.Handler Corr.Common Corr.Hist.
 
-Definition hdr (k : string) (hs : list (string * string)) : option string := lookup k hs.
 
 Definition no_cache (hs : list (string * string)) : bool :=
   match hdr "cache-control" hs, hdr "pragma" hs with
@@ -48,8 +47,6 @@ Fixpoint find_set_auth (tr : list (eff * ans)) : option (string * auth_state) :=
   | (ESetAuth sid a, AUnit true) :: _ => Some (sid, a)
   | _ :: tr' => find_set_auth tr'
   end.
-Fixpoint find_gen (tr : list (eff * ans)) : option gen_out :=
-  match tr with [] => None | (EGen, AGen g) :: _ => Some g | _ :: tr' => find_gen tr' end.
 Fixpoint find_set_tok (tr : list (eff * ans)) : option string :=
   match tr with [] => None | (ESetTok sid _, AUnit true) :: _ => Some sid | _ :: tr' => find_set_tok tr' end.
 Fixpoint has_idp_code_exchange (tr : list (eff * ans)) : bool :=
